@@ -344,14 +344,14 @@ func (w *World) parseContractFile(path string) error {
 	return sc.Err()
 }
 
-var atRe = regexp.MustCompile(`^call\s+(\S+)\s+#(\d+|\*)\s*(before)?\s*(assert\s+)?(.*)$`)
+var atRe = regexp.MustCompile(`^call\s+(\S+)\s+#(\d+|\*)\s*(before|after)?\s*(assert\s+)?(.*)$`)
 
 func parseAt(rest, path string, line int) (*AtSpec, error) {
 	m := atRe.FindStringSubmatch(rest)
 	if m == nil {
 		return nil, fmt.Errorf("bad at clause %q", rest)
 	}
-	a := &AtSpec{Callee: m[1], Before: m[3] != "", File: path, Line: line}
+	a := &AtSpec{Callee: m[1], Before: m[3] == "before", File: path, Line: line}
 	if m[2] != "*" {
 		a.Ordinal, _ = strconv.Atoi(m[2])
 	}
@@ -361,7 +361,7 @@ func parseAt(rest, path string, line int) (*AtSpec, error) {
 	if m[4] != "" {
 		lbl, txt := splitLabel(body)
 		a.Assert = &Clause{Label: lbl, Text: txt, File: path, Line: line}
-		a.Before = true
+		a.Before = m[3] != "after"
 		return a, nil
 	}
 	parts := strings.SplitN(body, "=", 2)
